@@ -2214,7 +2214,15 @@ fn e2e_setup(grid: &[Vec<u8>]) -> Result<(Worker, SocketAddr, SocketAddr), Strin
     }
     // a second HTTPS listener on the same worker with its own, fixed certificate for every grid
     // name: certificate commands are addressed to one listener and must stay there
-    let lb = wk.add_https_listener().map_err(|e| format!("listener-b: {e:?}"))?;
+    // ... and with `strict_sni_binding = false`: the gate is a per-listener policy
+    let lb = wk
+        .add_https_listener_with(|_| {}, |cfg| cfg.strict_sni_binding = Some(false))
+        .map_err(|e| format!("listener-b: {e:?}"))?;
+    for g in grid {
+        let hname = String::from_utf8_lossy(g).to_string();
+        wk.add_https_frontend(lb, &hname, "/", "c0").map_err(|e| format!("frontend-b: {hname}: {e:?}"))?;
+    }
+    wk.add_https_frontend(lb, "other.test", "/", "c0").ok();
     let kb = &assets().certs[listener_b_cert()];
     let names: Vec<Vec<u8>> = grid.to_vec();
     let resp = wk
@@ -2581,6 +2589,30 @@ fn run_e2e(ops: &[String]) -> Result<ImplRun, String> {
             }
             last_fields = fields.clone();
             r.out.push(format!("{res} | {}", fields.join(" ")));
+        }
+        // listener B was created with strict_sni_binding = false: there the same kind of
+        // request (authority not covered by the certificate served) is not refused, while
+        // listener A (default: strict) refuses it
+        if let (Some(lb), Some(n), false) = (listener_b, grid.first(), c07()) {
+            let sni = String::from_utf8_lossy(n).to_string();
+            let other = if sni == "other.test" { "www.ex.io".to_string() } else { "other.test".to_string() };
+            let req = format!("GET / HTTP/1.1\r\nHost: {other}\r\nConnection: close\r\n\r\n");
+            match tls_probe(lb, &sni, Some(&req)) {
+                Err(e) if e.starts_with(TRANSIENT) => return Err(e),
+                Err(e) => r.oracle.push(("handshake-fails".into(), format!("e2e listener B {sni}: {e}"))),
+                Ok((_, Some(421))) => r.oracle.push(("non-strict-listener-refused-authority".into(), format!("listener B has strict_sni_binding = false but answered 421 to Host {other:?} on SNI {sni:?}"))),
+                Ok((_, st)) => r.tags.push(format!("non-strict:{}", st.map(|s| s.to_string()).unwrap_or_else(|| "none".into()))),
+            }
+            if let Some((_, la)) = worker.as_ref() {
+                if !reference.allowed(n).is_empty() && !reference.allowed(n).iter().any(|i| reference.loaded[i].names.iter().any(|x| rfc6125_covers(&String::from_utf8_lossy(x), &other))) {
+                    match tls_probe(*la, &sni, Some(&req)) {
+                        Err(e) if e.starts_with(TRANSIENT) => return Err(e),
+                        Ok((_, Some(200))) => r.oracle.push(("routed-uncovered-authority".into(), format!("e2e: strict listener A routed Host {other:?} on SNI {sni:?}"))),
+                        Ok((_, st)) => r.tags.push(format!("strict-twin:{}", st.map(|s| s.to_string()).unwrap_or_else(|| "none".into()))),
+                        Err(_) => {}
+                    }
+                }
+            }
         }
         if let Some((mut wk, _)) = worker {
             wk.stop();
